@@ -119,7 +119,6 @@ def tsWhy (t : Int) : String :=
 def whyTag : DV → String
   | .ts t => tsWhy t
   | .tstz t => tsWhy t
-  | .interval _ _ ms => if ms % 1000 ≠ 0 then "iv-subsecond" else "?"
   | .date d => if dateInRange d then "?" else "date-range"
   | _ => "?"
 
